@@ -164,6 +164,11 @@ def layout : Forest → Option Nat → Option Nat → List Node
 
 def step (s : St) (w : List String) : St × String :=
   match w with
+  | ["n", "cxxlist", k, i] =>
+    -- third part: k C++ nodes in a parentless sibling list, the i-th is deleted: the rest must stay a sound list
+    match k.toNat?, i.toNat? with
+    | some k, some i => if k = 0 ∨ k > 16 ∨ i ≥ k then (s, "bad-op") else (s, "R sound | C - | I ret=- | S sound ; -")
+    | _, _ => (s, "bad-op")
   | ["n", "cxxreread", file, cycles] =>
     -- third part (harness/drvxx_treeparse.cpp): the C++ parser wrapper reads a file, then re-reads it `cycles` times
     -- after reset(): the clauses are relational (same tree every time, nothing lost, nothing left), the number of
@@ -211,6 +216,15 @@ def step (s : St) (w : List String) : St × String :=
         | none => precond s
         | some sp' => finish s (s.m.clear s.m.fuel x) sp' "0"
       else (s, line "refused" s.m (if inp = "broken" then "-2" else "-1") "refused" s.sp)
+    | none => (s, "bad-op")
+  | ["n", "newkey", key, v] =>
+    -- a node identified by a binary key instead of a text name: the key (written #<hex>) takes the place of the name
+    match parseHex key with
+    | some kb =>
+      if kb.isEmpty ∨ kb.length > 8 ∨ !okWord v then (s, "bad-op") else
+      let name : Name := some ("#" ++ toHex kb)
+      let val : Val := if v = "-" then none else some v
+      viaRun s (.new name val) (some ((specOf s).new name val)) (fun _ => toString s.m.nodes.length)
     | none => (s, "bad-op")
   | ["n", "newsmall", nm, v] =>
     -- same node as `new`; only the storage of the name differs in the code
